@@ -223,7 +223,7 @@ def validate(run, traces, verts, labels, name="FSATrace", verbose=False):
     os.makedirs(wd, exist_ok=True)
     tf = os.path.join(wd, "traces.json")
     with open(tf, "w") as f:
-        json.dump(traces, f)
+        json.dump(traces, f, default=str)
     c = core.cfg(init="TraceInit", next_="TraceNext",
                  constants=dict(Verts=set(verts), Labels=set(labels), MaxBuildEdges=0),
                  invariants=["Accepted"], view="TraceView")
@@ -244,7 +244,45 @@ def validate(run, traces, verts, labels, name="FSATrace", verbose=False):
     return rejected, r
 
 
+def well_typed(ev):
+    """TLC cannot compare an integer with a record: views holding values that are not vertices / labels at all
+    (e.g. a dict stored as an edge target) are reported here, not sent to TLC."""
+    def vx(x):
+        return isinstance(x, int) and not isinstance(x, bool)
+
+    def lab(l):
+        return isinstance(l, str) or (isinstance(l, list) and all(isinstance(c, str) for c in l))
+    views = [ev.get("post")] + ([ev["res"]] if isinstance(ev.get("res"), dict) else [])
+    for p in views:
+        if p is None:
+            continue
+        for k in ("gk", "ok", "ik"):
+            if not all(vx(v) for v in p[k]):
+                return False
+        for k in ("ge", "oe", "ie"):
+            if not all(vx(e[0]) and lab(e[1]) and vx(e[2]) for e in p[k]):
+                return False
+        for k in ("on", "inn"):
+            if not all(vx(a) and vx(b) for a, b in p[k]):
+                return False
+    return True
+
+
 def validate_and_report(run, traces, verts, labels, prop_clause="trace", name="FSATrace"):
+    kept = []
+    for t in traces:
+        bad_at = next((i for i, ev in enumerate(t) if not well_typed(ev)), None)
+        if bad_at is None:
+            kept.append(t)
+            continue
+        hist = [dict((k, v) for k, v in e.items() if k not in ("post", "res")) for e in t[:bad_at + 1]]
+        run.violation(key="trace-illtyped:" + json.dumps(hist[-3:], sort_keys=True, default=str)[:300],
+                      clause=prop_clause + ":ill_typed_view:" + t[bad_at]["op"],
+                      detail=dict(event=json.loads(json.dumps(t[bad_at], default=str)), history=hist[-6:]))
+    n_dropped = len(traces) - len(kept)
+    traces = kept
+    if not traces:
+        return 0, n_dropped
     rejected, r = validate(run, traces, verts, labels, name=name)
     n_ok = len(traces) - len(rejected)
     run.traces += n_ok
@@ -258,4 +296,4 @@ def validate_and_report(run, traces, verts, labels, prop_clause="trace", name="F
             hist = [dict((k, v) for k, v in e.items() if k not in ("post", "res")) for e in traces[i][:matched + 1]]
             run.violation(key="trace:" + json.dumps(hist[-3:], sort_keys=True)[:300], clause=prop_clause + ":" + (ev["op"] if ev else "?"),
                           detail=dict(matched_prefix=matched, rejected_event=ev, history=hist[-6:]))
-    return n_ok, len(rejected)
+    return n_ok, len(rejected) + n_dropped
